@@ -2,7 +2,7 @@
 From Coq Require Import List Ascii String Bool Arith NArith.
 From GoProbe.Base Require Import CorrLib.
 From Coq Require Import Permutation.
-From GoProbe.C10 Require Import Model ProofsTok ProofsSan ProofsSpell1 ProofsSpell6 ProofsDepth.
+From GoProbe.C10 Require Import Model ProofsTok ProofsSan ProofsSpell1 ProofsSpell6 ProofsSpell7 ProofsDepth.
 Import ListNotations.
 
 (* For every text and every iteration order of the conversion map, preparing the condition ends in
@@ -107,6 +107,19 @@ Theorem c10_spellings_partial : forall order s w o ta tb ws1 ws2,
   tokenize (sanitize order s) = tokenize (sanitize order (join ta ++ o ++ join tb)).
 Proof. exact spellings_word. Qed.
 Print Assumptions c10_spellings_partial.
+
+(* ANY NUMBER of occurrences of one word spelling in one condition: seg1 <ws>w<ws> seg2 <ws>w<ws> ... segn with
+   canonical neighbours as segments and arbitrary non-empty white space around every occurrence (chainW,
+   ProofsSpell7.v). The pass of that word's own rule (ReplaceAllString of \s+w\s+) rewrites all of them at once
+   into the symbol chain seg1 o seg2 o ... o segn (chainY) - by induction over the list of segments with the
+   compositional step rw_word_step (arbitrary tail). This is the own-rule half of the whole-tree statement
+   c10_spellings; that the OTHER rules stay quiet on a text with several operator chunks (a many-chunk version of
+   mid_quiet_rule) and mixed different words are still open, see prop.json not_discharged. *)
+Theorem c10_spellings_chain_own_rule : forall w o ta l,
+  word_spelling w o -> neighbour ta -> Forall link_ok l ->
+  apply_rule (RWord w o) (join ta ++ chainW w l) = join ta ++ chainY o l.
+Proof. exact ProofsSpell7.c10_spellings_chain_own_rule. Qed.
+Print Assumptions c10_spellings_chain_own_rule.
 
 (* the unary word operator "not" between such neighbours (so not directly behind a word operator,
    and not at the very start of the text) *)
